@@ -72,10 +72,71 @@ def s_log2():
                                   "se": st.booleans(), "twist": st.booleans(), "noise": noise(4)})
 
 
+THETA_TYPES = ["int", "float", "np.float64", "np.float32", "np.int64", "np.int32", "np.int16", "np.int8", "np.uint8",
+               "array:float64", "array:float32", "array:int64", "array:int16", "array:int8", "array:uint8", "list:int"]
+
+
+def _theta_conv(kind, vals):
+    """the integer-valued angle(s) `vals` carried by the given scalar / array type"""
+    if kind.startswith("array:"):
+        return np.array(vals, dtype=np.dtype(kind[6:]))
+    if kind == "list:int":
+        return [int(v) for v in vals]
+    f = {"int": int, "float": float}.get(kind) or getattr(np, kind[3:])
+    return f(vals[0])
+
+
+def s_thetatype():
+    return st.fixed_dictionaries({"kind": st.just("thetatype"), "dim": st.sampled_from([2, 3]), "type": st.sampled_from(THETA_TYPES),
+                                  "deg": st.lists(st.integers(0, 120), min_size=1, max_size=3), "unit": st.sampled_from(["deg", "rad"]),
+                                  "axis": gens.direction3(), "q": gens.trans(3, -2, 1), "prismatic": st.booleans()})
+
+
+def gen_thetatypes(tier):
+    for dim in (2, 3):
+        for ty in THETA_TYPES:
+            for unit in ("deg", "rad"):
+                for pris in (False, True):
+                    yield {"kind": "thetatype", "dim": dim, "type": ty, "deg": [90, 45, 77], "unit": unit, "axis": [0.6, 0.0, 0.8], "q": [1.0, -2.0, 0.5], "prismatic": pris}
+
+
+def _thetatype(case):
+    """exp(S, theta) = exp(theta S) for a unit twist, whatever numeric type carries the (integer-valued) angle, in either unit"""
+    dim, kind, unit = case["dim"], case["type"], case["unit"]
+    c = Checker("thetatype", dim=dim, type=kind, unit=unit, prismatic=case["prismatic"])
+    vals = [int(v) for v in case["deg"]] if unit == "deg" else [int(v) % 4 for v in case["deg"]]       # small integers as radians
+    multi = kind.startswith(("array:", "list:"))
+    if not multi:
+        vals = vals[:1]
+    rad = [v * PI / 180.0 if unit == "deg" else float(v) for v in vals]
+    if dim == 3:
+        w = refs.unit(case["axis"])
+        S = np.r_[w, 0.0, 0.0, 0.0] if case["prismatic"] else np.r_[-np.cross(w, arr(case["q"])), w]
+        wants = [refs.expm_se3(S[:3] * t, S[3:] * t) for t in rad]
+        tw_cls, base_exp = L.Twist3, L.base.trexp
+    else:
+        d2 = refs.unit(case["axis"][:2] if any(case["axis"][:2]) else [1.0, 0.0])
+        q = arr(case["q"])[:2]
+        S = np.r_[d2, 0.0] if case["prismatic"] else np.r_[q[1], -q[0], 1.0]
+        wants = [refs.expm_se2(S[:2] * t, S[2] * t) for t in rad]
+        tw_cls, base_exp = L.Twist2, L.base.trexp2
+    sc = max(1.0, float(np.max(np.abs(arr(case["q"])))))
+    theta = _theta_conv(kind, vals)
+    ok, X = c.lib("Twist.exp", lambda: tw_cls(S.copy()).exp(theta, unit))
+    if ok and c.true("Twist.exp/len", hasattr(X, "data") and len(X) == len(wants), "Twist%d.exp(%s %r, %r) gave %r" % (dim, kind, vals, unit, X)):
+        for i, Wm in enumerate(wants):
+            c.eq("Twist.exp/value", np.asarray(X.data[i], dtype=float), Wm, TOL, sc)
+    if unit == "rad" and not multi:
+        ok, E = c.lib("trexp(S,theta)", base_exp, S.copy(), theta)
+        if ok:
+            c.eq("trexp(S,theta)/value", E, wants[0], TOL, sc)
+    return c.out
+
+
 def check_case(case):
     if case.get("kind") in ("hist", "aug"):
         return probes.run(case, PROPERTY_ID)
-    return {"exp3": _exp3, "log3": _log3, "exp2": _exp2, "log2": _log2}[case["kind"]](case)
+    return {"exp3": _exp3, "log3": _log3, "exp2": _exp2, "log2": _log2, "thetatype": _thetatype}[case["kind"]](case)
 
 
 def _wv(case):
@@ -323,6 +384,8 @@ def _log2(case):
 def classify(case):
     if case.get("kind") in ("hist", "aug"):
         return probes.classify(case)
+    if case.get("kind") == "thetatype":
+        return {"kind:thetatype": True, "thetatype:" + case["type"]: True, "deg": case["unit"] == "deg", "nontrivial": case["type"] not in ("float", "np.float64")}
     k = case["kind"]
     th = case["w"]["mag"] if k.endswith("3") else abs(case["w"])
     tm = max([abs(x) for x in case["v"]] + [0.0])
@@ -340,5 +403,7 @@ def subchecks(tier):
         Sub("log3", strategy=s_log3(), n=(700, 15000), shards=(5, 16)),
         Sub("exp2", strategy=s_exp2(), n=(500, 6000), shards=(5, 16)),
         Sub("log2", strategy=s_log2(), n=(700, 12000), shards=(4, 16)),
+        Sub("theta_types", gen=gen_thetatypes, shards=(2, 4)),
+        Sub("theta_type_values", strategy=s_thetatype(), n=(150, 3000), shards=(2, 8)),
         *probes.subs(PROPERTY_ID),
     ]
